@@ -4,6 +4,7 @@ use vcore::runner::{unhex, Mode, Report, Tier};
 
 mod c08;
 mod c09;
+mod c10;
 
 fn main() {
     let args: Vec<String> = std::env::args().collect();
@@ -29,6 +30,7 @@ fn main() {
     match id.as_str() {
         "C08" => c08::run(report),
         "C09" => c09::run(report),
+        "C10" => c10::run(report),
         _ => {
             eprintln!("unknown property {id}");
             std::process::exit(2)
